@@ -27,6 +27,13 @@ CLAIMED = {
                      "allocation failure) leaves the instance un-initialised and as usable as a pristine one, and that after reset the instance reports defaults and yields the events of a fresh instance.",
                 note="Acceptance of a configuration is not re-derived (that frontier is C06): the model asks a pristine instance in the same durable environment. is_debug() and has_decay_version() after an "
                      "initialise attempt are deliberately not asserted; reset() of a never-initialised generator keeps its configuration by design and is only counted. Sampling, not the exhaustive enumeration the property's quantifier text mentions."),
+    "C11": dict(level="exploration", ref="DESIGN.md section 3 (C11)", replay_flavour="asan",
+                technique="deterministic simulation: writer -> simulated disk (seeded partition, read faults) -> reader driven by an interleaved client, checked step by step against a sequential reference model of the stream and window",
+                text="Seeded runs of a writer, a simulated disk that partitions the record stream into files (empty and whitespace-only files anywhere) and injects short reads, EINTR, EIO and missing files, "
+                     "and a client interleaving has_next_event/load_next_event; each call is checked against a sequential model of the concatenated stream and the (start,max) window, and every "
+                     "delivered event is compared textually at 15 significant digits with what was written.",
+                note="15-digit equality is decided by re-storing the loaded event with the library's own store(); values whose 15-digit decimal is not representable (above ~1.797e308) are not generated. "
+                     "After an injected EIO/ENOENT the reader may fail but must never deliver a wrong event. Storage corruption of the files is C15."),
 }
 
 NOT_APPLICABLE = {
